@@ -472,8 +472,25 @@ def rewrite_try(src, ed, lo, hi, log):
             log.append(f'R14 {src.rel}:{src.line_of(t.start)} `?` desugared')
 
 
-def rewrite_format(src, ed, lo, hi, log):
-    """R11: `format!(LIT, arg)` / `format!("..{name}..")` with exactly one placeholder -> vx_fmt1(PRE, &(ARG), POST)."""
+def _split_top_commas(sig, a0, a1):
+    """Token index ranges [(x0, x1)) of the top-level comma separated arguments between a0 and a1."""
+    out, start, j = [], a0, a0
+    while j < a1:
+        t = sig[j]
+        if t.kind == 'p' and t.text in '([{':
+            j = t.mate + 1
+            continue
+        if t.kind == 'p' and t.text == ',':
+            out.append((start, j))
+            start = j + 1
+        j += 1
+    if start < a1:
+        out.append((start, a1))
+    return out
+
+
+def rewrite_format(src, ed, lo, hi, log, substs=()):
+    """R11: `format!(LIT, args..)` with up to four plain placeholders (`{}` / `{name}`) -> vx_fmtN(P0, &(A1), P1, .., &(AN), PN)."""
     import re as _re
     sig = src.sig
     for i in range(lo, hi - 2):
@@ -488,25 +505,50 @@ def rewrite_format(src, ed, lo, hi, log):
         if not m:
             raise LiftError(f'{src.rel}:{src.line_of(lit.start)}: unsupported format literal')
         openq, body, closeq = m.group(1), m.group(3), m.group(4)
-        if '{{' in body or '}}' in body:
-            raise LiftError(f'{src.rel}:{src.line_of(lit.start)}: escaped braces in format! (R11 subset)')
-        ph = list(_re.finditer(r'\{([A-Za-z_][A-Za-z0-9_]*)?\}', body))
-        if len(ph) != 1 or body.count('{') != 1:
-            raise LiftError(f'{src.rel}:{src.line_of(lit.start)}: format! with {len(ph)} placeholders or format specs (R11 subset is exactly one plain placeholder)')
-        pre, post = body[:ph[0].start()], body[ph[0].end():]
-        if ph[0].group(1):
-            arg = ph[0].group(1)
-            if sig[o + 2].text != ')':
-                raise LiftError(f'{src.rel}:{src.line_of(lit.start)}: named placeholder with extra arguments')
-        else:
-            if sig[o + 2].text != ',':
-                raise LiftError(f'{src.rel}:{src.line_of(lit.start)}: positional placeholder without argument')
-            a0, a1 = o + 3, c
-            if sig[a1 - 1].text == ',':
-                a1 -= 1
-            arg = src.text[sig[a0].start:sig[a1 - 1].end]
-        ed.replace(sig[i].start, sig[c].end, f'vx_fmt1({openq}{pre}{closeq}, &({arg}), {openq}{post}{closeq})', 'R11')
-        log.append(f'R11 {src.rel}:{src.line_of(sig[i].start)} format! with one placeholder routed through vx_fmt1')
+        marked = body.replace('{{', '\x00').replace('}}', '\x01')
+        ph = list(_re.finditer(r'\{([A-Za-z_][A-Za-z0-9_]*)?\}', marked))
+        if marked.count('{') != len(ph) or len(ph) > 4:
+            raise LiftError(f'{src.rel}:{src.line_of(lit.start)}: format! with format specs or more than four placeholders (R11 subset)')
+        unesc = lambda x: x.replace('\x00', '{').replace('\x01', '}')
+        pieces, last = [], 0
+        for q in ph:
+            pieces.append(unesc(marked[last:q.start()]))
+            last = q.end()
+        pieces.append(unesc(marked[last:]))
+        explicit = _split_top_commas(sig, o + 2, c) if sig[o + 2].text == ',' else []
+        if sig[o + 2].text == ',':
+            explicit = _split_top_commas(sig, o + 3, c)
+        elif sig[o + 2].text != ')':
+            raise LiftError(f'{src.rel}:{src.line_of(lit.start)}: unexpected token after the format literal')
+        args, k = [], 0
+        for q in ph:
+            if q.group(1):
+                args.append(q.group(1))
+            else:
+                if k >= len(explicit):
+                    raise LiftError(f'{src.rel}:{src.line_of(lit.start)}: positional placeholder without argument')
+                x0, x1 = explicit[k]
+                args.append(src.text[sig[x0].start:sig[x1 - 1].end].lstrip('#'))
+                k += 1
+        if k != len(explicit):
+            raise LiftError(f'{src.rel}:{src.line_of(lit.start)}: format! arguments that no placeholder uses (named arguments are outside R11)')
+        # the arguments are re-emitted as text: the block's substitutions apply to them here (whitespace-insensitive)
+        from .rustlex import lex as _lex
+        def _norm(x):
+            return ' '.join(t.text for t in _lex(x, strict=False)[0])
+        for frm, to in substs or ():
+            nf = _norm(frm)
+            for k_, a_ in enumerate(args):
+                na = _norm(a_)
+                if nf and nf in na:
+                    args[k_] = na.replace(nf, to)
+                    log.append(f'R-subst {src.rel}:{src.line_of(sig[i].start)} `{frm}` => `{to}` (inside a format! argument)')
+        call = f'vx_fmt{len(ph)}(' + f'{openq}{pieces[0]}{closeq}'
+        for a_, p_ in zip(args, pieces[1:]):
+            call += f', &({a_}), {openq}{p_}{closeq}'
+        call += ')'
+        ed.replace(sig[i].start, sig[c].end, call, 'R11')
+        log.append(f'R11 {src.rel}:{src.line_of(sig[i].start)} format! with {len(ph)} placeholder(s) routed through vx_fmt{len(ph)}')
 
 
 def rewrite_write(src, ed, lo, hi, log):
